@@ -149,9 +149,12 @@ func ruleTokenTable(r *Run) {
 		return
 	}
 	var isFn *ssa.Call
-	for _, c := range callsIn(nt) {
-		if call, ok := c.(*ssa.Call); ok && callIs(call, modPath+"/"+lexerPkg, "(TokenType).IsFunction") {
-			isFn = call
+	hostFn := nt // the function (nextToken or a helper of it) that tests IsFunction()
+	for _, gf := range funcGroup(nt) {
+		for _, c := range callsIn(gf) {
+			if call, ok := c.(*ssa.Call); ok && callIs(call, modPath+"/"+lexerPkg, "(TokenType).IsFunction") {
+				isFn, hostFn = call, gf
+			}
 		}
 	}
 	if isFn == nil {
@@ -188,7 +191,7 @@ func ruleTokenTable(r *Run) {
 		return out
 	}
 	var cands []skipLoop
-	for _, l := range loopsOf(nt) {
+	for _, l := range loopsOf(hostFn) {
 		under := false
 		if b, known := knownBoolAt(l.header, isFn); known && b {
 			under = true
@@ -210,7 +213,7 @@ func ruleTokenTable(r *Run) {
 			cands = append(cands, l)
 		}
 	}
-	for _, c := range callsIn(nt) {
+	for _, c := range callsIn(hostFn) {
 		if b, known := knownBoolAt(c.Block(), isFn); !known || !b {
 			continue
 		}
